@@ -31,7 +31,7 @@ static void writeImage(const char *fn) {
   f.write(reinterpret_cast<const char *>(&words), 4); f.write(reinterpret_cast<const char *>(IMG), sizeof(IMG));
 }
 struct Planted { bool use; uint32_t pc, a, b, o, w0; int seed; };
-struct Outcome { int exitCode; std::string out; bool threw; uint32_t memk; };
+struct Outcome { int exitCode; std::string out; bool threw; uint32_t memk; long consumed; };
 
 static Outcome runOnce(const Planted &p, uint32_t k) {
   const std::unique_ptr<VerilatedContext> ctx{new VerilatedContext};
@@ -39,7 +39,8 @@ static Outcome runOnce(const Planted &p, uint32_t k) {
   ctx->randReset(p.seed < 0 ? 0 : 2); if (p.seed >= 0) ctx->randSeed(p.seed);
   const std::unique_ptr<Vhex_pkg> top{new Vhex_pkg{ctx.get(), "TOP"}};
   std::ostringstream cap; auto *old = std::cout.rdbuf(cap.rdbuf());
-  Outcome oc{0, "", false, 0};
+  std::istringstream input("xyz"); auto *oldin = std::cin.rdbuf(input.rdbuf()); std::cin.clear();
+  Outcome oc{0, "", false, 0, 0};
   uint32_t before = 0;
   try {
     load("c13_img.bin", top);
@@ -52,7 +53,8 @@ static Outcome runOnce(const Planted &p, uint32_t k) {
     before = top->hex->u_memory->memory_q[k];
     oc.exitCode = run(ctx, top, false, 100000);
   } catch (std::exception &e) { oc.threw = true; }
-  std::cout.rdbuf(old);
+  std::cout.rdbuf(old); std::cin.rdbuf(oldin);
+  input.clear(); { std::streampos pos = input.tellg(); oc.consumed = pos < 0 ? 3 : (long)pos; }
   oc.out = cap.str();
   size_t nl = oc.out.find('\n'); if (nl != std::string::npos) oc.out = oc.out.substr(nl + 1);  // drop load()'s banner
   oc.memk = top->hex->u_memory->memory_q[k] ^ before;   // 0 iff unchanged
@@ -63,6 +65,7 @@ static std::string differs(const Outcome &a, const Outcome &clean) {
   if (a.exitCode != clean.exitCode) return "exit value " + std::to_string(a.exitCode) + " instead of " + std::to_string(clean.exitCode);
   if (a.out != clean.out) return "spurious output";
   if (a.memk != 0) return "memory word changed before execution started";
+  if (a.consumed != clean.consumed) return "input consumed before execution started";
   return "";
 }
 int main(int argc, char **argv) {
@@ -90,7 +93,10 @@ int main(int argc, char **argv) {
         p.use = true; p.seed = -1; uint64_t x = rng();
         p.pc = 4000 + (uint32_t)(x % 100000); p.a = (it % 3 == 0) ? (uint32_t)((x >> 20) % 3) : (uint32_t)(x >> 20); p.b = (uint32_t)(rng() % 1000); p.o = 0;
         static const uint8_t bytes[] = {0xD3, 0x28, 0x82, 0xD3, 0x21, 0xD3};
-        uint8_t byte = bytes[it % 6]; p.w0 = (uint32_t)byte << ((p.pc & 3) << 3);
+        uint8_t byte = bytes[it % 6];
+        p.pc &= ~3u;                                   // two planted bytes: the instruction at pc and the one after it
+        uint8_t next = (it % 4 < 2) ? 0xD3 : 0x30;     // ... which is an SVC in half of the cases
+        p.w0 = (uint32_t)byte | ((uint32_t)next << 8);
         uint32_t opr = byte & 0xF; if ((byte >> 4) == 2) k = opr; if ((byte >> 4) == 8) k = p.b + opr; if (k < 32) k = 40;
       }
       Outcome clean = runOnce(cleanP, k), got = runOnce(p, k);
